@@ -122,6 +122,20 @@ CLAIMED = {
         "events (BIP-340 verification); 'older' on LMDB is '<=' (equal timestamps are left open by the property).",
         "DESIGN.md §6 C09",
     ),
+    "C08": (
+        "Lean 4 theorems (LMDB frame condition of a kind-5 add task via scanner soundness + key ownership; exact characterisation of the SQL rows after a committed kind-5 event) + differential correspondence of the stored set after every event on both backends",
+        "Proof: NostrRelay/Props/C08.lean proves for every coherent LMDB store that whatever a kind-5 event removes was "
+        "published by the deletion's pubkey, is strictly older and is the hex decoding of one of its e tags "
+        "(C08_kv_delete_frame, deletionRefs_mem); for SQL that after a committed new kind-5 event a row is present iff it "
+        "was present and is not (same pubkey and referenced) — frame and completeness in one statement "
+        "(C08_sql_delete_exact). LMDB completeness (every own, referenced, older event disappears) rests on scanner "
+        "completeness for the author index, which is proved only conditionally (C02_kv_scan_complete) and is otherwise "
+        "checked by the correspondence and the oracle (incl. get_event and a query by id after the deletion). Two LMDB "
+        "defects found by this check were repaired (seek sentinel at until; abort on a malformed e tag).",
+        "Trusted: as C09/C10. Validators disabled for the synthetic histories. 'Referenced' = an e tag whose value "
+        "bytes.fromhex / kv.bytes_from_hex decodes to the id (upper case and the odd-length fix-up included).",
+        "DESIGN.md §6 C08",
+    ),
 }
 
 NOT_YET = "not reached yet in this round (model/tie not built); see DESIGN.md §10 staging — no weaker technique is substituted"
